@@ -969,3 +969,61 @@ class ACT:
     def __call__(self, x):
         used(f"activation {self.name} (uninterpreted element-wise function)")
         return arr.ew1(lambda t: self.f(arr.t_z3(t, True)), x, "real")
+
+
+# ------------------------------------------------------------------------------------------------
+# loops with loop-carried state: induction through the real loop body
+
+class InductiveRange:
+    """Stand-in for `range(n)` (n >= 1 symbolic) in a function whose loop carries state.
+
+    The real loop body is executed three times inside the unmodified function:
+      1. iteration 0 on the real initial state; then `after(1)` must establish the invariant at 1 (base)
+      2. `havoc(i)` puts the captured state objects into the invariant at a symbolic i (1 <= i < n);
+         the body runs again; `after(i+1)` must show the invariant at i+1 (inductive step)
+      3. `havoc(n)` puts the state into the invariant at n, the loop exits and the code after the
+         loop runs on it (exit: post-condition checked by the caller on the function's result).
+    The driver supplies havoc/after callbacks that read / mutate the captured objects in place.
+    Sound only if the loop body's carried state is exactly what the driver captures -- the contract
+    checks the loop's source shape (names assigned in the body) before using this."""
+
+    def __init__(self, n, havoc, after):
+        self.n, self.havoc, self.after = n, havoc, after
+        self.failures = []
+
+    def __iter__(self):
+        yield 0
+        r = self.after(1, "base")
+        if r is not None:
+            self.failures.append(r)
+        i = z3.Int(sym.fresh_name("iter"))
+        sym.CTX.path += [i >= 1, i < zi(self.n)]
+        self.havoc(SInt(i))
+        yield SInt(i)
+        r = self.after(mk(i + 1), "step")
+        if r is not None:
+            self.failures.append(r)
+        self.havoc(self.n)
+
+
+def loop_shape(fn, expect_assigned):
+    """AST guard for InductiveRange / generic iteration: the (single) for-loop of `fn` assigns exactly
+    the expected set of names in its body.  Returns None if ok, else a description."""
+    import ast, inspect, textwrap
+    try:
+        tree = ast.parse(textwrap.dedent(inspect.getsource(fn)))
+    except (OSError, SyntaxError) as ex:
+        return f"cannot read source: {ex}"
+    loops = [n for n in ast.walk(tree) if isinstance(n, (ast.For, ast.While))]
+    outer = [l for l in loops if not any(l is not m and l in ast.walk(m) for m in loops)]
+    if len(outer) != 1:
+        return f"expected exactly one top-level loop, found {len(outer)}"
+    names = set()
+    for node in ast.walk(outer[0]):
+        if isinstance(node, ast.Name) and isinstance(node.ctx, ast.Store):
+            names.add(node.id)
+        if isinstance(node, ast.AugAssign) and isinstance(node.target, ast.Name):
+            names.add(node.target.id)
+    if names != set(expect_assigned):
+        return f"loop assigns {sorted(names)}, contract expects {sorted(expect_assigned)}"
+    return None
